@@ -542,7 +542,7 @@ def rfill(rng):
 
 
 def gen(rng, tier):
-    reps = 2 if tier == 'quick' else 20
+    reps = 2 if tier == 'quick' else 40
     cases = kat_cases() + rand_kat_cases(rng, 60 if tier == 'quick' else 1500)
     for _ in range(reps):
         # every PIN length x position x digit value; PAN lengths 13..19 in turn
